@@ -997,7 +997,7 @@ def _install_compare(reg):
 # ====================================================================== construction and pickling (C16, C20)
 def _install_state(reg):
     from pyvc.contract import CustomParam
-    from pyvc.externals_aeon import TAeonText, to_aeon_fn, from_aeon_fn, cleanup_fn, graph_of, AX_AEON
+    from pyvc.externals_aeon import TAeonText, to_aeon_fn, from_aeon_fn, cleanup_fn, graph_of, AX_AEON, Canonical, canon_fn
     OptCfg = TOpt(M.TConfig)
     CFG = ["cfg_" + k for k in M.CONFIG_KEYS]
     OptLN = M.OptLN
@@ -1081,7 +1081,7 @@ def _install_state(reg):
         v = c.self
         cfg = z3.If(OptCfg.is_none(c.config), M.DefaultCfg, OptCfg.val(c.config))
         nonec, nonev = M.OptLS.none().t, M.OptLV.none().t
-        return [("network_is_cleaned_argument", v.net == cleanup_fn(c.network)),
+        return [("network_is_cleaned_argument", z3.And(v.net == canon_fn(c.network), Canonical(v.net))),
                 ("symbolic_graph_is_of_that_network", v.sym == graph_of(v.net)),
                 ("petri_net_is_translation", v.pn == T.PNOfNet(c.network)),
                 ("nfvs_not_computed", OptLN.is_none(v.nfvs)),
@@ -1102,13 +1102,14 @@ def _install_state(reg):
         ensures=[(nm, (lambda k: (lambda c: dict(init_post(c))[k]))(nm)) for nm in IP],
         may_raise={"AssertionError": {}}, raises={"AssertionError": []},
         lemmas=[("L2.perc_trap(empty space)", lambda c: z3.And(*[z3.And(T.IsTrap(n_, EMPTY), T.wf_space(EMPTY), T.dom_within(EMPTY, n_))
-                                                                  for n_ in (bn_net_of(c.network), bn_net_of(cleanup_fn(c.network)))]))],
+                                                                  for n_ in (bn_net_of(c.network), bn_net_of(cleanup_fn(c.network)), bn_net_of(canon_fn(c.network)))]))],
         axioms=AX_AEON,
         note="self is an uninitialised object on entry (all fields arbitrary); the diagram invariant is ESTABLISHED here"), method_of="SD")
 
     # ---- schema lemma: unpickling the pickled state gives back the same abstract diagram (C16)
     def roundtrip(fresh):
-        """For every diagram view v whose network is a cleaned network and whose symbolic graph is the graph of that network
+        """For every diagram view v whose network is in canonical form (cleaned, variables in name order: what __init__ establishes since the
+        fix of D15) and whose symbolic graph is the graph of that network
         (both established by __init__ / __setstate__ and framed by every operation), the state record produced by the
         postcondition of __getstate__ fed to the postcondition of __setstate__ yields a view that is identical field by field."""
         v, w = fresh("vp"), fresh("vq")
@@ -1119,7 +1120,7 @@ def _install_state(reg):
         sett = z3.And(w.net == net, w.sym == graph_of(net), w.pn == v.pn, w.nfvs == v.nfvs, w.index == v.index,
                       *([getattr(w, f) == getattr(v, f) for f in M.DAG_FIELDS] +
                         [getattr(w, "cfg_" + k) == M.cfg_get[k](cfg) for k in M.CONFIG_KEYS]))
-        hyp = z3.And(cleanup_fn(v.net) == v.net, v.sym == graph_of(v.net))
+        hyp = z3.And(Canonical(v.net), v.sym == graph_of(v.net))
         same = z3.And(identical(w, v), w.nfvs == v.nfvs, *[getattr(w, f) == getattr(v, f) for f in CFG])
-        return z3.Implies(z3.And(hyp, get, sett), z3.And(same, cleanup_fn(w.net) == w.net, w.sym == graph_of(w.net))), AX_AEON
+        return z3.Implies(z3.And(hyp, get, sett), z3.And(same, Canonical(w.net), w.sym == graph_of(w.net))), AX_AEON
     S.EXTRA_SCHEMAS["S.pickle_roundtrip_is_identity"] = roundtrip
